@@ -476,7 +476,8 @@ func storageKey(cl *ssa.Call, bind map[ssa.Value]ssa.Value, depth int) (string, 
 		return v
 	}
 	if strings.HasSuffix(calleeName(cl.Common()), "level.NewBitStorage") && len(cl.Common().Args) == 3 {
-		if lk, ok := cl.Common().Args[2].(*ssa.Lookup); ok {
+		// (the data may reach the call through a parameter of a wrapper: newHeightMap(width, m["KEY"]))
+		if lk, ok := resolve(cl.Common().Args[2]).(*ssa.Lookup); ok {
 			if k, ok := resolve(lk.Index).(*ssa.Const); ok && k.Value != nil && k.Value.Kind() == constant.String {
 				return constant.StringVal(k.Value), true
 			}
